@@ -87,6 +87,31 @@ fn check_thick(ctx: &mut Ctx, a: Point, b: Point, w: u32, thin: &[Point]) {
             break;
         }
     }
+    // what draw() leaves on a target is that stroke: on an unbounded target, and on bounded targets
+    // whose edges coincide with / cut through it (last row/column only, first row/column only, ...)
+    // exactly its visible part (every third case)
+    if px.len() <= 6000 && (a.x as i64 + 2 * b.x as i64 + 3 * a.y as i64 + w as i64).rem_euclid(3) == 0 {
+        use egmon::target::{cut_boxes, restrict, unbounded_box, IterTarget, PixMap};
+        let mut wm = PixMap::new();
+        for q in &px {
+            wm.set(q.x, q.y, 1);
+        }
+        let mut boxes = vec![unbounded_box()];
+        if let Some(cut) = cut_boxes(&wm) {
+            boxes.push(cut[(wm.hash() / 7 % 5) as usize]);
+            boxes.push(cut[0]);
+        }
+        for bx in boxes {
+            let mut t = IterTarget::<BinaryColor>::new(bx);
+            let _ = styled.draw(&mut t);
+            let want_in = restrict(&wm, &bx);
+            if !t.log.map.same(&want_in) {
+                ctx.violation("thick|draw-differs-from-pixels-inside-the-target", || format!("{} on target box {:?}", case(), egmon::target::rt(&bx)), || format!("first difference {:?} (x, y, drawn, pixels() inside the box)", t.log.map.first_diff(&want_in)));
+                break;
+            }
+        }
+        ctx.count("strokes_drawn_on_targets", 1);
+    }
     // contains the thin line
     if let Some(m) = thin.iter().find(|p| !set.contains(&(p.x, p.y))) {
         ctx.violation("thick|thin-line-point-missing", case, || format!("{:?} of Line::points() is not part of the stroked line", m));
